@@ -57,10 +57,11 @@ static void build(size_t cap, bool shared, size_t ucap)
         a[1].name = xstr("+V"); a[1].write = h_write;
         { struct cat_variable *v = w_vars(&a[1], 2); v[0].type = CAT_VAR_UINT_DEC; w_vdata(&v[0], 1); v[0].write = hv_write; v[1].type = CAT_VAR_BUF_STRING; w_vdata(&v[1], 8); v[1].write = hv_write; }
         a[2].name = xstr("D"); a[2].write = h_write; a[2].implicit_write = true; w_vars(&a[2], 0);
+        bool pct = chance(30);      /* '%' is a legal name character and natural in descriptions: descriptor strings are data, never formats */
         for (int t = 0; t < 2; t++) {
                 struct cat_command *c = &a[3 + t];
-                c->name = xstr(t ? "+Q" : "+R"); if (!t) { c->read = h_read; c->test = h_test; }
-                if (chance(50)) c->description = xstr("rd");
+                c->name = xstr(t ? (pct ? "+Q%d" : "+Q") : (pct ? "+R%d" : "+R")); if (!t) { c->read = h_read; c->test = h_test; }
+                if (chance(50)) c->description = xstr(pct ? "r%sd 0-100%" : "rd");
         }
         unsigned nv = 1 + rn(3);
         struct cat_variable *v3 = w_vars(&a[3], nv), *v4 = w_vars(&a[4], nv);
@@ -68,7 +69,7 @@ static void build(size_t cap, bool shared, size_t ucap)
                 v3[j].type = (cat_var_type)rn(5); v3[j].access = chance(70) ? CAT_VAR_ACCESS_READ_WRITE : CAT_VAR_ACCESS_READ_ONLY;
                 size_t sz = v3[j].type <= CAT_VAR_NUM_HEX ? (size_t[]){ 1, 2, 4 }[rn(3)] : 1 + rn(6);
                 uint8_t *d = w_vdata(&v3[j], sz); for (size_t b = 0; b < sz; b++) d[b] = (uint8_t)('a' + rn(26)); if (v3[j].type == CAT_VAR_BUF_STRING) d[rn((unsigned)sz)] = 0;
-                v3[j].name = chance(50) ? "n" : NULL;
+                v3[j].name = chance(50) ? (pct ? "n%u%" : "n") : NULL;
                 v4[j] = v3[j];
         }
         a[4].description = a[3].description;
@@ -167,6 +168,11 @@ static void rt_pair(int kind, int fsm, int base /*3 or 5*/)
                         viol("C06", "response-text-second-pass", "after NEXT the handler was handed \"%.60s\" (size %zu) instead of the automatic text \"%.60s\"", (char *)hc[1].data, hc[1].size, (char *)hc[0].data);
         }
         if (nhc != (two_pass ? 2 : 1) || hc[0].kind != kind || hc[0].fsm != fsm) { viol("C06", "read-test-handler-not-called", "%d handler calls (first kind %d fsm %d), expected one of kind %d on fsm %d", nhc, nhc ? hc[0].kind : -1, nhc ? hc[0].fsm : -1, kind, fsm); return; }
+        {       /* besides the twin: the reference formatter (a distortion common to both commands would pass the twin comparison) */
+                char ref[600]; int rl = kind == K_READ ? ref_fmt_read(W.cmd[base], ref, sizeof ref) : ref_fmt_test(W.cmd[base], "\n", ref, sizeof ref);
+                if (rl >= 0 && (size_t)rl < cap && strcmp(ref, (char *)hc[0].data) != 0) { viol("C06", "response-text", "handler was handed \"%.60s\" but the descriptor asks for \"%.60s\"", (char *)hc[0].data, ref); return; }
+                CNT("handler_texts_compared_with_reference_formatter");
+        }
         const char *te = strchr(twin, '='), *he = strchr((char *)hc[0].data, '=');
         if (!te || !he || strcmp(te, he) != 0 || strncmp((char *)hc[0].data, hn, strlen(hn)) != 0) viol("C06", "response-text", "handler was handed \"%.60s\" but the automatic response of the twin is \"%.60s\"", (char *)hc[0].data, twin);
         else if (hc[0].size != hc[0].slen) viol("C06", "response-length", "*data_size %zu but the text is %zu bytes long", hc[0].size, hc[0].slen);
